@@ -32,7 +32,8 @@ pub fn chunked_body_flow_for(which: usize) -> Result<F<RecvBody>, String> {
     let (method, status, extra) = CHUNKED_STATUSES[which % CHUNKED_STATUSES.len()];
     let mut f = super::c05::recv_flow(method);
     // the coding is announced in several legal spellings
-    let te = ["chunked", "Chunked", "gzip, chunked", "chunked,", "chunked", " chunked\t"][which / CHUNKED_STATUSES.len() % 6];
+    // (the last one: the list spread over two field lines)
+    let te = ["chunked", "Chunked", "gzip, chunked", "chunked,", "chunked", " chunked\t", "gzip\r\nTransfer-Encoding: chunked"][which / CHUNKED_STATUSES.len() % 7];
     let head = format!("HTTP/1.1 {} X\r\n{}Transfer-Encoding: {}\r\n\r\n", status, extra, te);
     let (n, r) = f.try_response(head.as_bytes()).map_err(|e| format!("{:?}", e))?;
     if n != head.len() || r.is_none() {
@@ -470,7 +471,7 @@ impl Property for P {
         "C07"
     }
     fn rule(&self) -> String {
-        "chunked codings are rendered from a plan (sizes, hex case, leading zeros, extensions, trailers, payload containing CR/LF/'0'/';'), so payload, coding length and chunk map are known. Each run delivers the coding followed by the head of a next message under a cut set, reading while there is progress with a given output-size pattern, boundary stop on or off, and checks after every read: output == payload so far, never a byte beyond the coding consumed, ended <=> final CRLF consumed, no read spanning two chunks with boundary stop. (A) every coding <= 18 bytes of a tiny grammar x ALL cut sets x {out 0..4 cycle, 1, large, exact-then-zero-length} x stop on/off; the response carrying the coding is one of eight (method, status) pairs incl. 205, 301, 404, 500; (B) grammar codings (<=3 chunks, sizes 1,2,3,15,16,255,256,4095,4096, ext, hex styles, 0..2 trailers) x every single cut and every pair of cuts within +-3 of a token boundary, byte-at-a-time, random cut sets; (C) random codings up to 8 chunks of 20 KB. The coding is announced as chunked / Chunked / gzip, chunked / chunked, (empty list element) / with blanks; trailer lines up to 5000 bytes occur in the random plans. class = token kind before the cut x output pattern; decoder transitions actually taken are counted by the in-crate hook.".into()
+        "chunked codings are rendered from a plan (sizes, hex case, leading zeros, extensions, trailers, payload containing CR/LF/'0'/';'), so payload, coding length and chunk map are known. Each run delivers the coding followed by the head of a next message under a cut set, reading while there is progress with a given output-size pattern, boundary stop on or off, and checks after every read: output == payload so far, never a byte beyond the coding consumed, ended <=> final CRLF consumed, no read spanning two chunks with boundary stop. (A) every coding <= 18 bytes of a tiny grammar x ALL cut sets x {out 0..4 cycle, 1, large, exact-then-zero-length} x stop on/off; the response carrying the coding is one of eight (method, status) pairs incl. 205, 301, 404, 500; (B) grammar codings (<=3 chunks, sizes 1,2,3,15,16,255,256,4095,4096, ext, hex styles, 0..2 trailers) x every single cut and every pair of cuts within +-3 of a token boundary, byte-at-a-time, random cut sets; (C) random codings up to 8 chunks of 20 KB. The coding is announced as chunked / Chunked / gzip, chunked / chunked, (empty list element) / with blanks / on two field lines; chunk extensions up to 120 bytes; trailer lines up to 5000 bytes occur in the random plans. class = token kind before the cut x output pattern; decoder transitions actually taken are counted by the in-crate hook.".into()
     }
     fn assumptions(&self) -> Vec<String> {
         vec![
